@@ -40,13 +40,22 @@ func (p Path) String() string {
 // Diff returns the paths to the differences between two values. Any ignore
 // paths are ignored in the comparison.
 func Diff(v0, v1 any, ignores ...Path) (diffs []Path) {
-	return diff(v0, v1, false, ignores...)
+	return diff(simplifyNode(v0), simplifyNode(v1), false, ignores...)
+}
+
+// simplifyNode converts a gen.Node to simple data so that generic numbers are
+// compared by value like simple numbers are.
+func simplifyNode(v any) any {
+	if n, ok := v.(gen.Node); ok && n != nil {
+		return n.Simplify()
+	}
+	return v
 }
 
 // Compare returns a path to the first difference encountered between two
 // values. Any ignore paths are ignored in the comparison.
 func Compare(v0, v1 any, ignores ...Path) Path {
-	if diffs := diff(v0, v1, true, ignores...); 0 < len(diffs) {
+	if diffs := diff(simplifyNode(v0), simplifyNode(v1), true, ignores...); 0 < len(diffs) {
 		return diffs[0]
 	}
 	return nil
@@ -194,7 +203,7 @@ func diff(v0, v1 any, one bool, ignores ...Path) (diffs []Path) {
 				}
 			}
 		}
-		if len(t0) != len(t1) && !ignoreIndex(len(t0), ignores) {
+		if len(t0) < len(t1) && !ignoreIndex(len(t0), ignores) {
 			diffs = append(diffs, Path{len(t0)})
 		}
 	case map[string]any:
